@@ -99,6 +99,37 @@ class IntStats:
     return self.new(ids, xs).result()
 
 
+class TupleSum:
+  """A functional aggregate: immutable tuple states, every step returns a new
+  one (the Aggregatable protocol allows, but does not require, merging into
+  the first state).  State = (rows, sum of x, sum of id*x)."""
+
+  def __eq__(self, other):
+    return isinstance(other, TupleSum)
+
+  def __hash__(self):
+    return hash(TupleSum)
+
+  def create_state(self):
+    return (0, 0, 0)
+
+  def update_state(self, state, ids, xs):
+    ids = [int(v) for v in np.asarray(ids).reshape(-1)]
+    xs = [int(v) for v in np.asarray(xs).reshape(-1)]
+    return (state[0] + len(xs), state[1] + sum(xs),
+            state[2] + sum(i * x for i, x in zip(ids, xs)))
+
+  def merge_states(self, states):
+    states = list(states)
+    return tuple(sum(s[k] for s in states) for k in range(3))
+
+  def get_result(self, state):
+    return ('tsum',) + tuple(state)
+
+  def __call__(self, ids, xs):
+    return self.get_result(self.update_state(self.create_state(), ids, xs))
+
+
 class ListSink:
   """A sink that records what was written and whether it was closed."""
 
@@ -164,9 +195,9 @@ def add_ops(t, ops, sink_prefix='s'):
   return t
 
 
-def add_aggs(t, spec):
+def add_aggs(t, spec, aggs=None, prefix=''):
   from ml_metrics._src.aggregates import rolling_stats
-  aggs = spec.get('aggs', [])
+  aggs = spec.get('aggs', []) if aggs is None else aggs
   first = True
   for a in aggs:
     if a == 'int':
@@ -177,14 +208,17 @@ def add_aggs(t, spec):
       fn, ik, ok = rolling_stats.Counter().as_agg_fn(), 'x', 'cnt'
     elif a == 'mmc':
       fn, ik, ok = rolling_stats.MinMaxAndCount().as_agg_fn(), 'x', 'mmc'
+    elif a == 'tsum':
+      fn, ik, ok = TupleSum(), ('id', 'x'), 'tsum'
     else:
       raise ValueError(a)
+    ok = prefix + ok
     if first:
       t = t.aggregate(fn=fn, input_keys=ik, output_keys=ok)
       first = False
     else:
       t = t.add_aggregate(fn=fn, input_keys=ik, output_keys=ok)
-  if aggs and spec.get('slice'):
+  if aggs and spec.get('slice') and not prefix:
     t = t.add_slice('g')
   return t
 
@@ -197,6 +231,10 @@ def build(spec, *, num_threads=0, data_source=None, stages=None, name='p'):
   """
   from ml_metrics._src.chainables import transform
   ops = spec['ops']
+  early = spec.get('early')
+  if early and not stages:
+    # aggregates on an earlier named stage as well: always a chain
+    stages = [early['cut']]
   if not stages:
     t = transform.TreeTransform.new(name=name, num_threads=num_threads)
     if data_source is not None:
@@ -210,6 +248,8 @@ def build(spec, *, num_threads=0, data_source=None, stages=None, name='p'):
     if s == 0 and data_source is not None:
       t = t.data_source(data_source)
     t = add_ops(t, ops[cuts[s]:cuts[s + 1]])
+    if s == 0 and early:
+      t = add_aggs(t, spec, aggs=early['aggs'], prefix='e_')
     if s == len(cuts) - 2:
       t = add_aggs(t, spec)
     if t.is_noop:
@@ -304,6 +344,14 @@ def results_equal(a, b, tol=1e-9):
 
 
 # ---- generation ------------------------------------------------------------------
+def gen_early(rng, spec):
+  """Adds aggregates on an earlier named stage of the pipeline to `spec`."""
+  spec['early'] = {'cut': rng.randrange(0, len(spec['ops']) + 1),
+                   'aggs': rng.choice([['int'], ['tsum'], ['int', 'tsum'],
+                                       ['cnt']])}
+  return spec
+
+
 def gen_spec(rng, *, max_n=10, allow_filter=True, allow_sink=True,
              allow_rebatch=True, need_agg=True):
   n = rng.randrange(1, max_n + 1)
@@ -351,7 +399,7 @@ def gen_spec(rng, *, max_n=10, allow_filter=True, allow_sink=True,
   if need_agg or rng.random() < 0.8:
     aggs = ['int']
     if rng.random() < 0.5:
-      aggs.append(rng.choice(['mv', 'cnt', 'mmc']))
+      aggs.append(rng.choice(['mv', 'cnt', 'mmc', 'tsum', 'tsum']))
   return {
       'n': n,
       'rows': rng.choice([1, 2, 3]),
